@@ -281,8 +281,11 @@ CLAIMS = {
              "charged that same attribute, only in credit play; gates and charge are registered after removing earlier "
              "registrations and removed as a set on free play; a coin is audited once with its value and takes part in the "
              "pricing tiers while event and service credits are audited as such and never advance the tiers; expiration "
-             "delays use millisecond-typed settings with the right callbacks and are removed while a game runs. The "
-             "pricing-table arithmetic (tier bonuses) as such is not decided.",
-        technique="classification + feasible-path bound check of every store; table agreement gate/price; who-may-write; unit check against the config spec",
+             "delays use millisecond-typed settings with the right callbacks and are removed while a game runs. Also: coin, "
+             "service and credit-event handlers are registered and removed as a set (by handler identity); on every path "
+             "of the unit computation, for every ordering of smallest coin and game price, the credit unit is bounded by "
+             "both (ordering-only abstract walk) and units per game is price / unit. The pricing-table arithmetic (tier "
+             "bonuses) as such is not decided.",
+        technique="classification + feasible-path bound check of every store; ordering-domain abstract walk of the unit computation; table agreement gate/price; who-may-write; unit check against the config spec",
         ref="4/C20"),
 }
